@@ -1,6 +1,6 @@
-"""C01 - UDS request codec: real request classes (`.pdu`, `Class.from_pdu`, `UDSRequest.parse_dynamic`) and the bytes
-`UDSClient.<service method>()` hands to the transport, against Model/UdsReq.lean (the ISO 14229-1 layout oracle:
-`mk` = construction with range checks, `encode`, `decode`)."""
+"""C01 - UDS request codec: real request classes (`.pdu`, `Class.from_pdu`, `UDSRequest.parse_dynamic`) against Model/UdsReq.lean (the
+ISO 14229-1 layout oracle: `mk` = construction with range checks, `encode`, `decode`), and the bytes `UDSClient.<service method>()` /
+`ECU.<helper>()` hand to the transport against Model/UdsClientApi.lean (`denote`: which request a method call stands for)."""
 import asyncio
 import importlib.util
 import inspect
@@ -18,8 +18,11 @@ ASSUMPTIONS = [
     "struct.pack / int.to_bytes / int.from_bytes behave as documented (big-endian, OverflowError / struct.error when a value does not fit)",
     "a refusal is any exception raised by the constructor or by the first read of `.pdu` (the property only asks for 'an error rather than a wrong PDU'); the exception class is not compared",
     "base classes (SubFunctionRequest, SpecializedSubFunctionRequest, RoutineControlRequest, _ReadDTCType0/6Request, _RequestUpOrDownloadRequest, ...) are not requests a user is meant to construct",
-    "arguments are of the annotated Python types (int / bytes / bool / sequences of int); duck-typed misuse is outside the model",
+    "arguments are of the annotated Python types (int / bytes / bool / None / sequences of int); duck-typed misuse is outside the model",
     "controlOptionRecord and controlEnableMaskRecord of InputOutputControlByIdentifier come back as their concatenation (no length field exists; documented in the code)",
+    "Python's binding of positional / keyword arguments to parameter names is the documented one (the model binds by name; the harness passes the same values positionally, by keyword and with optional ones left out)",
+    "the `config` parameter (timeout / retries / tags) does not influence which request is built: the AST translator drops it from signatures and call sites and the model has no counterpart",
+    "ECU helpers are modelled up to the requests they build when every reply is positive: ping, read_session, set_session (hooks do nothing, no database transitions), read_dtc, clear_dtc, read_vin, refresh_state, transmit_data, leave_session; check_and_set_session, the tester-present worker and wait_for_ecu only through their regenerated call sites (callSites), not through a run",
 ]
 
 _spec = importlib.util.spec_from_file_location("c01_registry", VERIF / "gen" / "c01_registry.py")
@@ -599,7 +602,7 @@ def ecu_call(meth, pos, kw):
     except Exception as ex:  # noqa: BLE001
         if not t.sent:
             return "err", type(ex).__name__
-        return "sent", ",".join(hx(x) for x in t.sent) + "!" + type(ex).__name__
+        # what happens after the request is on the wire (reply parsing, state tracking) is not this property's business
     return "sent", ",".join(hx(x) for x in t.sent) or "nothing"
 
 
@@ -1060,7 +1063,7 @@ def eval_client(ctx, loop, api, calls, count=False):
         elif st == "err":
             key = f"{cat}-refused-valid:{meth}:{val}"
         else:
-            got = bytes.fromhex(val) if val not in ("-", "nothing") and "," not in val and "!" not in val else b""
+            got = bytes.fromhex(val) if val not in ("-", "nothing") and "," not in val else b""
             key = f"{cat}-bytes:{meth}:{first_diff(got, bytes.fromhex(want[1]) if want[1] != '-' else b'')}"
         F.add(key, f"{shown[:200]} hands {val[:60]} to the transport; the request the call denotes encodes to {want[1] and want[1][:60]}"
               + (f" (left out: {', '.join(omitted)})" if omitted else ""),
@@ -1445,15 +1448,32 @@ MANIFEST = {
                    "well-formed request (never degraded to raw), encode (decode b) = b for every byte string, decode always "
                    "well-formed, encode injective, layout lemmas (service id, sub-function + suppress bit, big-endian identifiers, "
                    "address/length format), construction refuses exactly the out-of-range arguments, minimal address/length format. "
-                   "Tied to the code by (T) the registry table regenerated from the live UDSService._SERVICES (service ids, "
-                   "sub-function ids, min/max lengths; proof obligation registry_agrees) and (C) a correspondence run of every real "
-                   "request class (.pdu, Class.from_pdu, UDSRequest.parse_dynamic) and every public UDSClient service method "
-                   "(bytes handed to a scripted transport) against the model: boundary values of every field exhaustively, all "
-                   "address/size widths 1..15 x 1..15, all byte strings of length <= 2 (<= 3 per registered service in thorough), "
-                   "truncations / extensions / bit flips of valid PDUs."),
-    "level_note": ("Trusted: Lean kernel (axioms propext, Quot.sound, Classical.choice), the registry translator, the harness, "
-                   "struct / int.to_bytes contracts. The exception class of a refusal is not compared; controlOptionRecord and "
-                   "controlEnableMaskRecord are compared as their concatenation after parsing; abstract base classes are out of scope."),
-    "technique": "Lean 4 proof (structural induction, case analysis per request kind, decide +kernel registry agreement) + differential correspondence against the real request classes and UDSClient",
+                   "The service-method layer is inside the model (Model/UdsClientApi.lean): `Call` has one constructor per public "
+                   "UDSClient service method (35) and per single-request ECU helper (7), `denote` is the documented meaning of a call "
+                   "(defaults = no suppression, empty records, method 0, computed format byte), `bytesOf` interprets the code as written "
+                   "(parameter names / order / defaults, the class every method body constructs and what it passes for which constructor "
+                   "parameter, helper delegations - all regenerated from inspect.signature and the AST of client.py / ecu.py). Proved: "
+                   "call_bytes (bytesOf c = encode of the denoted request, same refusals), denote_wf / denote_refuses / denote_accepts, "
+                   "call_decode (the bytes of every call parse back to the denoted request, never raw), call_suppress_bit / "
+                   "call_no_suppress_unasked, call_fixed_subfn (method name -> service id and sub-function), call_ident_be, "
+                   "call_iocbi_parameter, omitted_equals_default, transmit_data_counters / _refuses / _bytes (counter starts at 1, wraps "
+                   "0xFF -> 0x00, chunks concatenate to the data and fit the block length, too small block lengths refused). "
+                   "Tied to the code by (T) the registry table regenerated from the live UDSService._SERVICES (registry_agrees) and the "
+                   "API tables (api_signature_agrees, api_sites_agree, api_table_agrees: a changed default, parameter, argument order, "
+                   "constructed class, delegation constant or an extra statement in a method body breaks the build) and (C) a "
+                   "correspondence run of every real request class (.pdu, Class.from_pdu, UDSRequest.parse_dynamic), of every public "
+                   "UDSClient service method and ECU helper (bytes handed to a scripted transport against the Lean `denote`: boundary "
+                   "values of every parameter, sub-functions / masks / counters / method nibbles exhaustively, arguments positional / left "
+                   "out / by keyword, the request classes themselves with optional arguments left out), ECU.transmit_data over block "
+                   "lengths around 2 and 0xFFF, data sizes around multiples of the payload size and 254..257 / 513 blocks, "
+                   "ECU.leave_session; all address/size widths 1..15 x 1..15, all byte strings of length <= 2 (<= 3 per registered "
+                   "service in thorough), truncations / extensions / bit flips of valid PDUs."),
+    "level_note": ("Trusted: Lean kernel (axioms propext, Quot.sound, Classical.choice), the registry and API translators (gen/c01_registry.py, "
+                   "gen/c01_api.py; the signatures are read a second time by the harness), the harness, struct / int.to_bytes contracts, "
+                   "Python's argument binding. The exception class of a refusal is not compared; controlOptionRecord and "
+                   "controlEnableMaskRecord are compared as their concatenation after parsing; abstract base classes are out of scope; "
+                   "the `config` parameter and the reply-dependent paths of the ECU helpers (negative replies, database session "
+                   "transitions, power cycling) are outside the model."),
+    "technique": "Lean 4 proof (structural induction, case analysis per request kind / per method, decide +kernel table agreements, an interpreter over the regenerated API tables proved equal to the documented meaning) + differential correspondence against the real request classes, UDSClient and ECU",
     "design_ref": "DESIGN.md section 7, C01",
 }
